@@ -189,6 +189,20 @@ func (x *exec) ev(e Expr, env *Env, hint types.Type) *Val {
 			x.c.Fun("str-sub", []string{"Str", x.c.I(), x.c.I()}, "Str")
 			return x.mkVal(App("str-sub", st, lo, hi), xv.Typ)
 		}
+		if nb, ok := isByteArray(xv.Typ); ok {
+			// a[lo:hi] of a byte-array value: the same snapshot store the executor builds for it
+			lo, hi := x.c.ILit(0), x.c.ILit(nb)
+			if n.Lo != nil {
+				v := x.ev(n.Lo, env, types.Typ[types.Int])
+				lo = x.c.Convert(x.term(v), v.Typ, types.Typ[types.Int])
+			}
+			if n.Hi != nil {
+				v := x.ev(n.Hi, env, types.Typ[types.Int])
+				hi = x.c.Convert(x.term(v), v.Typ, types.Typ[types.Int])
+			}
+			elem := xv.Typ.Underlying().(*types.Array).Elem()
+			return &Val{Typ: types.NewSlice(elem), Seq: &seqView{arr: x.bytesOf(x.term(xv), xv.Typ), off: lo, ln: x.c.ISub(hi, lo)}}
+		}
 		if !isSliceType(xv.Typ) {
 			fail("spec: slice expression on %s", xv.Typ)
 		}
